@@ -40,32 +40,43 @@ class Expander(ast.NodeTransformer):
         return node
 
 
-class OldLifter(ast.NodeTransformer):
-    def __init__(self):
-        self.olds = []
+class LazyImplies(ast.NodeTransformer):
+    """implies(a, b) -> (not a) or b, so that b is only evaluated when a holds (as in the SMT reading,
+    where b is guarded by a)."""
 
     def visit_Call(self, node):
-        if isinstance(node.func, ast.Name) and node.func.id == "old":
-            name = "__old_%d" % len(self.olds)
-            self.olds.append((name, node.args[0]))
-            return ast.Name(id=name, ctx=ast.Load())
         self.generic_visit(node)
+        if isinstance(node.func, ast.Name) and node.func.id == "implies" and len(node.args) == 2:
+            return ast.BoolOp(op=ast.Or(), values=[ast.UnaryOp(op=ast.Not(), operand=node.args[0]), node.args[1]])
         return node
 
 
-def compile_expr(src, defs, clsname):
+class OldRebinder(ast.NodeTransformer):
+    """old(e) -> (lambda <params>: e)(<pre-state copies of the params>).  Bound variables of enclosing
+    quantifiers stay visible through the closure; only the state names are rebound to the pre-state."""
+
+    def __init__(self, params):
+        self.params = params
+
+    def visit_Call(self, node):
+        self.generic_visit(node)
+        if isinstance(node.func, ast.Name) and node.func.id == "old" and len(node.args) == 1:
+            lam = ast.Lambda(args=ast.arguments(posonlyargs=[], args=[ast.arg(arg=p) for p in self.params],
+                                                kwonlyargs=[], kw_defaults=[], defaults=[]),
+                             body=node.args[0])
+            return ast.Call(func=lam, args=[ast.Name(id="__pre_" + p, ctx=ast.Load()) for p in self.params],
+                            keywords=[])
+        return node
+
+
+def compile_expr(src, defs, clsname, params):
     t = ast.parse(src.strip(), mode="eval").body
     t = Expander(defs, clsname).visit(t)
-    lifter = OldLifter()
-    t = lifter.visit(t)
-    ast.fix_missing_locations(t)
-    code = compile(ast.Expression(t), "<contract>", "eval")
-    olds = []
-    for name, e in lifter.olds:
-        ee = ast.Expression(e)
-        ast.fix_missing_locations(ee)
-        olds.append((name, compile(ee, "<old>", "eval")))
-    return code, olds
+    t = LazyImplies().visit(t)
+    t = OldRebinder(params).visit(t)
+    e = ast.Expression(t)
+    ast.fix_missing_locations(e)
+    return compile(e, "<contract>", "eval")
 
 
 def all_defs(mod, fs):
@@ -81,32 +92,32 @@ def all_defs(mod, fs):
 def evaluate_contract(mod, fs, func, vals, extra_ns=None):
     """Call func(**vals) and evaluate the contract.  -> (ok: bool|None, text)"""
     defs = all_defs(mod, fs)
+    params = list(vals)
     ns = dict(N.NATIVES)
     ns.update(getattr(mod, "NATIVE_SPEC", {}))
     ns.update(extra_ns or {})
     ns.update(vals)
     for r in fs.requires:
-        code, _ = compile_expr(r, defs, fs.clsname)
+        code = compile_expr(r, defs, fs.clsname, params)
         try:
             if not eval(code, ns):
                 return None, "precondition `%s` is false on these inputs" % r
         except N.Skip:
-            return None, "precondition not evaluable"
-    comp = [compile_expr(e, defs, fs.clsname) for e in fs.ensures]
-    rcomp = dict((k, compile_expr(c, defs, fs.clsname)) for k, c in fs.raises.items())
-    oldvals = {}
-    for code, olds in comp:
-        for name, oc in olds:
-            oldvals[(id(code), name)] = copy.deepcopy(eval(oc, ns))
-    pre_ns = dict(ns)
-    pre_ns.update(copy.deepcopy(dict((k, v) for k, v in vals.items() if k != "self")))
+            return None, "precondition `%s` not evaluable natively" % r
+    pre = copy.deepcopy(vals)
+    for p in params:
+        ns["__pre_" + p] = pre[p]
+    comp = [compile_expr(e, defs, fs.clsname, params) for e in fs.ensures]
+    rcomp = dict((k, compile_expr(c, defs, fs.clsname, params)) for k, c in fs.raises.items())
     try:
         result = func(**vals)
         if fs.yields:
             result = list(result)
     except Exception as e:
         name = type(e).__name__
-        for k, (code, olds) in rcomp.items():
+        pre_ns = dict(ns)
+        pre_ns.update(pre)
+        for k, code in rcomp.items():
             if k in [c.__name__ for c in type(e).__mro__]:
                 ok = eval(code, pre_ns)
                 if ok:
@@ -114,15 +125,15 @@ def evaluate_contract(mod, fs, func, vals, extra_ns=None):
                 return False, "raised %s although the contract's condition for it (`%s`) is false" % (name, fs.raises[k])
         return False, "raised %s: %s, which the contract does not allow" % (name, e)
     ns["result"] = result
-    for (code, olds), src in zip(comp, fs.ensures):
-        for name, oc in olds:
-            ns[name] = oldvals[(id(code), name)]
+    skipped = 0
+    for code, src in zip(comp, fs.ensures):
         try:
             if not eval(code, ns):
                 return False, "postcondition `%s` is false; result=%r" % (src, _r(result))
         except N.Skip:
+            skipped += 1
             continue
-    return True, "all postconditions hold; result=%r" % (_r(result),)
+    return True, "all postconditions hold (%d not evaluable); result=%r" % (skipped, _r(result),)
 
 
 def _r(x):
@@ -142,6 +153,8 @@ def replay(mod, qual, vals, builder, req):
     fs = find_spec(mod, qual)
     if fs is None:
         return dict(confirmed=None, text="no contract %s" % qual)
+    if getattr(fs, "src", None) is not None:
+        return dict(confirmed=None, text="ghost lemma: nothing to run natively")
     func = resolve(fs)
     ok, text = evaluate_contract(mod, fs, func, vals)
     if ok is None:
